@@ -8,10 +8,53 @@ model on the private state of every node after every step.
 -/
 import Ajson.Spec.WF
 import Ajson.Proofs.MutBasics
+import Ajson.Proofs.WFInv
 import Ajson.Model.Decode
 
 namespace Ajson.Props.C05
-open Ajson Ajson.Heap
+open Ajson Ajson.Heap Ajson.Proofs
+
+/-! ### the structural invariant is preserved (for EVERY heap that satisfies it, every receiver and argument)
+
+`Struct` (Proofs/WFInv.lean) is the propositional form of `Heap.wfNode` for every allocated node: children are allocated, name
+their parent and sit under the key their `key`/`index` says; keys are pairwise different; an array's keys are "0" … "n-1"; scalars
+have no children; a node's parent lists it; dirtiness is closed upwards; a clean node has its source and only clean children.
+Proved so far for: `mark`, SetNull/SetNumeric/SetString/SetBool (any receiver — the replaced children are detached),
+deleting a member of an object, AppendObject of a detached node under a new key, AppendArray of a detached node.
+Not yet proved: deletion from arrays (the renumbering loop), appending an attached node (move), replacing an existing key,
+SetArray/SetObject, SetNode, the constructors with adopted children, and acyclicity. -/
+
+theorem C05_inv_mark {h : Heap} (hs : Struct h) (n : Nat) (hn : n < h.size) : Struct (h.mark n) := (hs.mark n hn).1
+
+/-- SetNull, SetNumeric, SetString, SetBool on any node (scalar or container, root or child) keep the invariant and succeed -/
+theorem C05_inv_set_scalar {h : Heap} (hs : Struct h) (n : Nat) (hn : n < h.size) (v : SetVal) (hv : v.type.isContainer = false) :
+    Struct (h.update (some n) v).1 ∧ (h.update (some n) v).2 = .ok () := struct_update_scalar hs n hn v hv
+
+/-- deleting a member of an object (DeleteNode, DeleteKey, PopKey, Delete) keeps the invariant and succeeds -/
+theorem C05_inv_delete_member {h : Heap} (hs : Struct h) (n value : Nat) (hv : value < h.size)
+    (hpar : (h.get value).parent = some n) (hobj : (h.get n).type = .object) :
+    Struct (h.remove n value).1 ∧ (h.remove n value).2 = .ok () := struct_remove_object hs n value hv hpar hobj
+
+/-- AppendObject of a detached node under a key the object does not have keeps the invariant and succeeds -/
+theorem C05_inv_append_object {h : Heap} (hs : Struct h) (n value : Nat) (hn : n < h.size) (hv : value < h.size)
+    (hobj : (h.get n).type = .object) (hloop : h.isParentOrSelfNode n value = false) (hroot : (h.get value).parent = none)
+    (k : Bytes) (hfresh : (h.childMap n).lookup k = none) :
+    Struct (h.appendObject n k value).1 ∧ (h.appendObject n k value).2 = .ok () :=
+  struct_appendObject_fresh hs n value hn hv hobj hloop hroot k hfresh
+
+/-- AppendArray of a detached node keeps the invariant and succeeds -/
+theorem C05_inv_append_array {h : Heap} (hs : Struct h) (n value : Nat) (hn : n < h.size) (hv : value < h.size)
+    (harr : (h.get n).type = .array) (hloop : h.isParentOrSelfNode n value = false) (hroot : (h.get value).parent = none) :
+    Struct (h.appendArray n [value]).1 ∧ (h.appendArray n [value]).2 = .ok () :=
+  struct_appendArray_one hs n value hn hv harr hloop hroot
+
+/-- a read fills at most a cache cell, which the invariant does not look at -/
+theorem C05_inv_cache_fill {h : Heap} (hs : Struct h) (n : Id) (c : Option CacheVal) :
+    Struct (h.modify n (fun r => { r with cache := c })) :=
+  struct_modify_irrelevant hs n _ (fun _ => ⟨rfl, rfl, rfl, rfl, rfl, rfl, rfl, rfl⟩)
+
+/-- the hypotheses are satisfiable: the empty heap, and a heap with one detached scalar -/
+example : Struct ({} : Heap) := fun p hp => by simp [Heap.size] at hp
 
 theorem wf_empty : ({} : Heap).WF := by unfold Heap.WF; decide
 
